@@ -782,6 +782,7 @@ class Rewriter:
     # R27: boxed::Box -- cells, owners, destructor runs; thin trait impls forward to the inner value ---------------------------
     def boxops_rules(self, b):
         b = self.sub('R27:use-stmt', r'(?m)^\s*use crate::boxed::Box;\s*$', '', b)
+        b = self.sub('R27:path', r'\bcrate::boxed::Box\b', 'Box', b)
         b = self.sub('R27:type-annotation', r'let (\w+): \*mut \(?dyn Any(?: \+ Send)?\)? =', r'let \1 =', b)
         b = self.sub('R27:type-annotation', r'let (\w+): Box<[^=]*> =', r'let \1 =', b)
         b = self.sub('R2:ptr-cast', r'\s+as \*mut (?:\[T; N\]|T\b|str\b|dyn Any\b)', '', b)
@@ -794,13 +795,13 @@ class Rewriter:
         b = self.map_calls(b, r'(?<![\w:])Box::into_raw', last('BoxM::into_raw'), 'R27:into_raw')
         b = self.map_calls(b, r'\bcore::ptr::read', last('cell_read'), 'R27:ptr-read')
         b = self.map_calls(b, r'\bcore::ptr::drop_in_place', last('cell_drop_in_place'), 'R27:drop_in_place')
-        b = self.sub('R27:slice-parts', r'\bcore::ptr::slice_from_raw_parts_mut\(', 'raw_slice_parts(', b)
+        b = self.sub('R27:slice-parts', r'\b(?:core::)?ptr::slice_from_raw_parts_mut\(', 'raw_slice_parts(', b)
         b = self.sub('R27:slice-parts', r'(?<![\w:])slice::from_raw_parts_mut\(', 'raw_from_parts(', b)
         b = self.sub('R27:arena-alloc', r'\ba\.alloc\((\w+)\)', r'bump_alloc_val(\1, a, st)', b)
         b = self.sub('R27:pin', r'\bPin::new_unchecked\(', 'pin_new_unchecked(', b)
         b = self.method_to_fn(b, 'into', 'BoxM::pin_from', 'R27:into-pin')
         b = self.sub('R27:any-is', r'\bself\.is::<T>\(\)', 'any_is_T(&self)', b)
-        b = self.sub('R27:ptr-eq', r'\b(?:core::)?ptr::eq\(&\*\*self, &\*\*other\)', 'ptr_identical(self, other)', b)
+        b = self.sub('R27:ptr-eq', r'\b(?:core::)?ptr::eq(?:::<[^>]*>)?\(&\*\*self, &\*\*other\)', 'ptr_identical(self, other)', b)
         b = self.map_calls(b, r'\bv\.into_boxed_slice', lambda m_, a: 'v.into_boxed_slice(st)', 'R27:thread-store')
         b = self.sub('R27:forget', r'\bmem::forget\(self\)', 'vec_forget(self, st)', b)
         b = self.sub('R27:vec-len', r'\bself\.len\b(?!\()', 'self.len', b)
@@ -1078,6 +1079,11 @@ class Rewriter:
             b = self.sub('R16:guard-deref', r'\*len\b', 'len', b)
             b = self.sub('R16:guard-backref', r'(?m)^\s*len,\s*$', '', b)
         b = self.desugar_pipeline(b)                                         # R15
+        if self.cfg.get('cand'):
+            # R32: the slow path's candidate call is routed through a verified wrapper that carries two ghost arguments (is this the first
+            # candidate? what was the doubled size?) so that C18 can speak about the FIRST size offered
+            b = self.sub('R32:candidate-call', r'Self::new_chunk_memory_details\(Some\(([^()]+)\), layout\)',
+                         r'Self::ncmd_candidate(Some(\1), layout, Ghost(was_first__), Ghost(base0__))', b)
         b = self.sub('R7:empty-chunk', r'\bEMPTY_CHUNK\.get\(\)', 'empty_chunk_get()', b)
         b = self.aliases(b)                                                  # R4
         b = self.footer_derefs(b)                                            # R4/R3
